@@ -305,6 +305,8 @@ OpObs(r, val) ==
     IN << O("C03", "op.graph", ok),
           O(P, "sem:" \o r.op, ArgsLive(r) /\
                 (IF r.op \in PickOps THEN PickDdOk(r, val) ELSE val = Expected(r))),
+          O("C06", "cache:" \o r.op, ArgsLive(r) /\
+                (IF r.op \in PickOps THEN PickDdOk(r, val) ELSE val = Expected(r))),
           O("C02", "eval", SeqToSet(r.tt) = val),
           O("C01", "canon.op", \A s \in Live : (Val(s) = val) <=> (EdgeOf(s) = r.e)),
           O("C03", "op.reduced", ok => (GraphOrdered(g) /\ \A i \in 1 .. Len(g) : NodeReduced(g[i]))),
